@@ -1124,4 +1124,101 @@ def vHasInnerHtmlKids : List VNode → Bool
   | n :: ns => vHasInnerHtml n || vHasInnerHtmlKids ns
 end
 
+/-! ## Part 7 — leptos components that hand their children's HTML through (leptos/src/{show,error_boundary,
+for_loop,suspense_component,transition,await_}.rs)
+
+`<Show>`, `<ErrorBoundary>`, `<For>`, `<Suspense>` / `<Transition>`, `<Await>` have `RenderHtml` impls (or are
+closures over `Either`) of their own that call `to_html_with_buf` / `to_html_async_with_buf` of the chosen
+branch and pass the `escape` flag on.  For escaping they are meant to be **transparent**: the document is
+the one of the branch that is shown.  `resolve` states that: `final = true` is the settled document (every
+`Suspend` resolved: what an in-order stream delivers and what an out-of-order stream leaves after its
+scripts ran), `final = false` the first paint (`to_html()` and the first out-of-order chunk: `<Suspense>`
+shows its fallback, `<Await>` nothing).  Which sibling markers (`<!>`) the wrappers add or skip is C05/C07's
+matter; C06 compares modulo `normList` (comments dropped, adjacent text merged). -/
+
+inductive WNode where
+  | leaf (n : VNode)
+  | elem (tag : Str) (attrs : List Attr) (kids : List WNode)
+  | seq (kids : List WNode)
+  | vec (kids : List WNode)
+  | show (cond : Bool) (kids fb : List WNode)
+  | boundary (kids fb : List WNode)      -- <ErrorBoundary fallback=…>kids</ErrorBoundary>
+  | okStr (s : Str)                      -- a child `Ok(s)`
+  | err (msg : Str)                      -- a child `Err(e)`, `e.to_string() = msg`
+  | errMsgs                              -- inside a fallback: the messages of the boundary, joined by ", "
+  | forEach (fam : Nat) (rows : List Str) -- <For each=rows …>: fam 0 `{s}`, otherwise `<i>{s}</i>`
+  | suspense (kids fb : List WNode)      -- <Suspense> and <Transition>
+  | suspend (kids : List WNode)          -- Suspend::new(async { kids })
+  | await (data : Str)                   -- <Await future=async { data } let:d><b>{d}</b>{d}</Await>
+  deriving Repr
+
+mutual
+/-- messages thrown to the nearest enclosing boundary (a nested boundary keeps its own) -/
+def errsOf : WNode → List Str
+  | .err m => [m]
+  | .elem _ _ ks => errsOfKids ks
+  | .seq ks => errsOfKids ks
+  | .vec ks => errsOfKids ks
+  | .show c ks fb => if c then errsOfKids ks else errsOfKids fb
+  | .suspense ks _ => errsOfKids ks
+  | .suspend ks => errsOfKids ks
+  | _ => []
+def errsOfKids : List WNode → List Str
+  | [] => []
+  | n :: ns => errsOf n ++ errsOfKids ns
+end
+
+def joinMsgs : List Str → Str
+  | [] => []
+  | [m] => m
+  | m :: ms => m ++ [',', ' '] ++ joinMsgs ms
+
+def tLi : Str := ['i']
+def tB : Str := ['b']
+
+mutual
+def resolve (final : Bool) (msgs : Str) : WNode → List VNode
+  | .leaf n => [n]
+  | .elem t a ks => [.elem t a (resolveKids final msgs ks)]
+  | .seq ks => [.seq (resolveKids final msgs ks)]
+  | .vec ks => [.vec (resolveKids final msgs ks)]
+  | .show c ks fb => if c then [.seq (resolveKids final msgs ks)] else [.seq (resolveKids final msgs fb)]
+  | .boundary ks fb =>
+    match errsOfKids ks with
+    | [] => [.seq (resolveKids final msgs ks)]
+    | es => [.seq (resolveKids final (joinMsgs es) fb)]
+  | .okStr s => [.text s]
+  | .err _ => [.unit]
+  | .errMsgs => [.text msgs]
+  | .forEach fam rows =>
+    [.vec (rows.map fun s => if fam = 0 then .text s else .elem tLi [] [.text s])]
+  | .suspense ks fb => if final then [.seq (resolveKids final msgs ks)] else [.seq (resolveKids final msgs fb)]
+  | .suspend ks => [.seq (resolveKids final msgs ks)]
+  | .await d => if final then [.elem tB [] [.text d], .text d] else [.unit]
+def resolveKids (final : Bool) (msgs : Str) : List WNode → List VNode
+  | [] => []
+  | n :: ns => resolve final msgs n ++ resolveKids final msgs ns
+end
+
+/-- push a text node in front of a normalised list -/
+def consText (s : Str) : List Tree → List Tree
+  | .text u :: r => .text (s ++ u) :: r
+  | r => .text s :: r
+
+/-- put a normalised node in front of a normalised list: comments vanish, text merges -/
+def pushNorm : Tree → List Tree → List Tree
+  | .comment _, r => r
+  | .text s, r => consText s r
+  | e, r => e :: r
+
+mutual
+/-- the document modulo sibling markers: comments dropped, adjacent text nodes merged -/
+def normTree : Tree → Tree
+  | .elem t a ks => .elem t a (normList ks)
+  | t => t
+def normList : List Tree → List Tree
+  | [] => []
+  | t :: r => pushNorm (normTree t) (normList r)
+end
+
 end Leptos.Html
